@@ -1,6 +1,6 @@
 """C02 - Fq and Fr arithmetic is exact modular arithmetic with canonical results."""
 import os
-import vlib
+import vlib, fam_consts
 from engine import Run, replay_event
 from fam_field import FIELD, key_of, class_of, confirm_factory, filter_cases
 
@@ -11,6 +11,7 @@ RULE = ("cases = TLC-enumerated boundary family BW x BW, sum-targeted pairs, exp
 
 def run(tier):
     run = Run("C02", tier)
+    fam_consts.audit(run, tier)          # the numeric constants this property rests on, from the source text (MC_Consts)
     sc = vlib.scratch()
     # (1) bounded exhaustive model checking: big-natural layer and the word-serial algorithms (Tier A)
     run.mc("MC_BigNat", env={"BOUND": 16 if tier == "quick" else 64}, timeout=600)
